@@ -64,7 +64,8 @@ LEVEL_TEXT = ('Machine-checked theorems over every trace (unbounded threads and 
               'Registry.__init__ -- the reason histories re-initialise in idle states -- and proved safe for every init program that '
               'clears the cache last (any split point, any trace running there, operations not straddling a step). '
               'Re-initialisation followed by a commit that fails midway: later lookups see exactly the executed actions on an '
-              'empty registry. _call_view is translated and proved equal to its reference '
+              'empty registry. The judge of request histories (expectation along histories + generated _call_view) is proved sound; '
+              'freshness along histories holds without the lock too. _call_view is translated and proved equal to its reference '
               'model (first candidate that does not raise PredicateMismatch answers). '
               'The theorems are for a cache key that contains the view classifier (regenerated fact cache_key_mode); for the key '
               '(request_iface, context_iface, view_name) freshness is refuted by a concrete history and proved only for histories '
